@@ -261,6 +261,18 @@ def probes(uid, kek, kind):
                 continue        # the full form is above
             add('derive|%s|present=%s' % (m.name, '+'.join(sorted(k[:4] for k in kw)) or 'none'),
                 (lambda m=m, kw=kw: W.p_derive_key([uid], m, params=W.cattrs.DerivationParameters(**kw))))
+    # ... and cryptographic parameters that lack exactly one of their fields (whatever the engine takes
+    # from the keying object instead has to exist on every kind of keying object)
+    full = dict(hashing_algorithm=HASH.SHA_256, cryptographic_algorithm=ALG.AES, block_cipher_mode=MODE.CBC,
+                padding_method=PAD.PKCS5)
+    for m in DM:
+        for missing in full:
+            for rest in (dict(derivation_data=b'data' * 4, salt=b'salt', iteration_count=3,
+                              initialization_vector=iv16), dict(derivation_data=b'data' * 4)):
+                kwcp = {k: v for k, v in full.items() if k != missing}
+                add('derive|%s|params-without=%s|%s' % (m.name, missing, 'all' if len(rest) > 1 else 'data'),
+                    (lambda m=m, kwcp=kwcp, rest=rest: W.p_derive_key([uid], m, params=W.cattrs.DerivationParameters(
+                        cryptographic_parameters=cp(**kwcp), **rest))))
     for ln in (0, 8, 64, 128, 129, 256, 2 ** 20):
         add('derive|length=%d' % ln, (lambda ln=ln: W.p_derive_key([uid], attrs=W.sym_attrs(length=ln))))
     add('derive|no-derivation-data', lambda: W.p_derive_key([uid], params=W.cattrs.DerivationParameters(
